@@ -904,7 +904,9 @@ func (r *Reader) MarkdownWithOptions(opts ExtractOptions) (string, error) {
 				result.WriteString("#")
 			}
 			result.WriteString(" ")
-			result.WriteString(elem.Text)
+			// an ATX heading is one line: a <br> inside the heading would end it
+			// and turn the rest into a paragraph
+			result.WriteString(strings.Join(strings.Fields(elem.Text), " "))
 
 		case ElementParagraph:
 			if result.Len() > 0 {
